@@ -165,6 +165,8 @@ def r_enqueue_guard(ctx, rule='R01.4', need_min=False):
         # nothing is discarded when ub > lb: from the '>' edge every path reaches push
         for (bbk, lab) in cut:
             tb = [t for (t, l) in c.succ(bbk) if l == lab][0]
+            if not any(c.term_point(bb) in c.reach([(tb, 0)]) for (bb, t) in pushes):
+                continue      # an edge after the push (e.g. a drop flag that merely remembers the test)
             r = c.reach([(tb, 0)], avoid=[c.term_point(bb) for (bb, t) in pushes])
             bad = [p for p in ret_points(c) if p in r]
             ctx.check(not bad, rule, tag + '/push-must', c, c.loc(bbk),
@@ -173,7 +175,7 @@ def r_enqueue_guard(ctx, rule='R01.4', need_min=False):
         # the pushed value is the closure's parameter with its ub possibly overwritten
         for (bb, t) in pushes:
             v = c.origin.operand(t['args'][1], c.term_point(bb))
-            ubt = M.simplify_field(v, 'ub', None)
+            ubt = M.simplify_field(v, 'ub', 'common::SubProblem')
             parent_ub = lambda x: M.is_param(x) and x[1] == b.name
             is_min = isinstance(ubt, tuple) and ubt[0] == 'min' and any(parent_ub(x) for x in ubt[1]) and \
                 any(is_subproblem_field(x, 'ub') and M.is_param(x[1]) for x in ubt[1]) and len(ubt[1]) == 2
@@ -204,8 +206,7 @@ def r_complete(ctx, rule='R01.5'):
         if not ctx.floor(rule, tag, b, len(comp), 1, 'returns of WorkLoad::Complete'):
             continue
         pts = [(bb, i) for (bb, i, s) in comp]
-        fr_empty = lambda t: M.is_call(t, 'Fringe::is_empty') and solver_field(t[2][0], 'fringe')
-        ok, cut, bad = M.guarded(b, pts, lambda atoms, lit: any(a[0] == 'T' and fr_empty(a[1]) for a in atoms))
+        ok, cut, bad = M.guarded(b, pts, lambda atoms, lit: any(empty_lit(a, lambda x: solver_field(x, 'fringe')) for a in atoms))
         ctx.check(ok, rule, tag + '/complete-empty-fringe', b, b.loc(*pts[0]),
                   'WorkLoad::Complete is returned only on an edge asserting fringe.is_empty()',
                   'WorkLoad::Complete can be returned on a path that does not assert fringe.is_empty()')
@@ -299,13 +300,18 @@ def r_incumbent(ctx, rule='R02.1'):
         # maybe_update_best: origins and strictness
         mb = ctx.body(adt, 'maybe_update_best')
         ws = writers.get(mb.name, {})
-        exact_val = lambda t: M.is_call(t, 'unwrap_or') and M.is_call(t[2][0], 'DecisionDiagram::best_exact_value') and \
-            M.is_const(t[2][1]) and (t[2][1][2] or '').endswith('MIN')
+        def exact_val(t):
+            # mdd.best_exact_value().unwrap_or(MIN)  |  the payload v of `if let Some(v) = mdd.best_exact_value()` / match / unwrap
+            if M.is_call(t, 'unwrap_or') and M.is_call(t[2][0], 'DecisionDiagram::best_exact_value') and M.is_const(t[2][1]) and (t[2][1][2] or '').endswith('MIN'):
+                return t[2][0]
+            if M.is_field(t, '0') and isinstance(t[1], tuple) and t[1][0] == 'variant' and t[1][2] == 'Some' and M.is_call(t[1][1], 'DecisionDiagram::best_exact_value'):
+                return t[1][1]
+            return None
         for (pt, dest, val) in ws.get('best_lb', []):
-            ctx.check(exact_val(val), rule, tag + '/new-lb-origin', mb, mb.loc(*pt),
+            ctx.check(exact_val(val) is not None, rule, tag + '/new-lb-origin', mb, mb.loc(*pt),
                       'new best_lb = mdd.best_exact_value().unwrap_or(MIN)',
                       'the incumbent value is taken from %s, not from the diagram\'s best EXACT value' % M.show(val))
-            recv_v = val[2][0][2][0] if exact_val(val) else None
+            recv_v = exact_val(val)[2][0] if exact_val(val) is not None else None
             for (pt2, dest2, val2) in ws.get('best_sol', []):
                 good = M.is_call(val2, 'DecisionDiagram::best_exact_solution') and (recv_v is None or val2[2][0] == recv_v)
                 ctx.check(good, rule, tag + '/new-sol-origin', mb, mb.loc(*pt2),
@@ -356,6 +362,8 @@ def r_set_primal(ctx, rule='R14.1'):
         # and it does replace it when strictly greater: from the strict edge all paths write both
         for (bbk, lab) in cut:
             tb = [t for (t, l) in b.succ(bbk) if l == lab][0]
+            if not any(pt in b.reach([(tb, 0)]) for (pt, d, v) in ws):
+                continue      # an edge after the writes (a drop flag that merely remembers the test)
             for f in ('best_lb', 'best_sol'):
                 pts = [pt for (pt, d, v) in ws if solver_field(d, f)]
                 r = b.reach([(tb, 0)], avoid=pts)
@@ -505,9 +513,12 @@ def r_pop_discard(ctx, rule='R03.pop'):
                   'the whole fringe is discarded only on an edge asserting popped.ub <=|< best_lb',
                   'get_workload can clear the fringe without asserting popped.ub <= best_lb')
         # the counters are zeroed on every path from the clear to the return
-        zero = [b.term_point(bb) for (bb, t) in b.calls_to('for_each', 'fill')
-                if M.contains(b.origin.operand(t['args'][0], b.term_point(bb)), lambda x: solver_field(x, 'open_by_layer'))]
+        zero = zeroes_all(b, lambda x: solver_field(x, 'open_by_layer'))
         r = b.reach(b.after(b.term_point(clears[0][0])), avoid=zero)
+        if zero and any(M.is_const(v_, 0) for (pt_, d_, v_, s_) in writes(b) if pt_ in zero):
+            # loop form: the loop must be entered on every path after the clear (the iterator is created unconditionally)
+            its = [b.term_point(bb) for (bb, t) in b.calls_to('iter_mut') if M.contains(b.origin.operand(t['args'][0], b.term_point(bb)), lambda x: solver_field(x, 'open_by_layer'))]
+            r = b.reach(b.after(b.term_point(clears[0][0])), avoid=its)
         ctx.check(bool(zero) and not any(p in r for p in ret_points(b)), 'R09.8', 'clear-zeroes-open-counters', b, b.loc(clears[0][0]),
                   'discarding the fringe also zeroes open_by_layer on every path', 'the fringe is cleared in get_workload without zeroing open_by_layer')
     marks = b.calls_to('Cache::update_threshold')
@@ -857,7 +868,11 @@ def r_abort(ctx):
     pops = asb.calls_to('Fringe::pop')
     clears = asb.calls_to('Fringe::clear')
     if ctx.floor('R05.4', 'best_ub-writes', asb, len(ws), 1, 'writes of best_ub in abort_search'):
-        for n, (pt, d, v) in enumerate(ws):
+        flat = []
+        for (pt, d, v) in ws:
+            for (conds, leaf) in M.cases(v):
+                flat.append((pt, d, leaf, conds))
+        for n, (pt, d, v, conds) in enumerate(flat):
             items = v[1] if isinstance(v, tuple) and v[0] == 'max' else (v,)
             has_param = any(M.is_param(x) and x[1] == asb.name for x in items)
             has_inflight = any(M.contains(x, lambda y: M.is_field(y, 'upper_bounds', 'Critical')) and M.contains(x, lambda y: M.is_call(y, 'Iterator::max', 'max', 'fold')) for x in items)
@@ -871,10 +886,11 @@ def r_abort(ctx):
             has_top = any(is_top(x) or (M.is_call(x, 'unwrap_or') and is_top(x[2][0])) for x in items)
             prev = any(solver_field(x, 'best_ub') for x in items)
             # the previous value may be skipped only on the edge asserting best_ub == MAX
+            first_abort = lambda atoms: any(
+                M.cmp_matches(a, lambda t: solver_field(t, 'best_ub'), lambda t: M.is_const(t) and (t[2] or '').endswith('MAX'), '=') for a in atoms)
             if not prev:
-                ok, cut, bad = M.guarded(asb, [pt], lambda atoms, lit: any(
-                    M.cmp_matches(a, lambda t: solver_field(t, 'best_ub'), lambda t: M.is_const(t) and (t[2] or '').endswith('MAX'), '=') for a in atoms))
-                prev = ok
+                ok, cut, bad = M.guarded(asb, [pt], lambda atoms, lit: first_abort(atoms))
+                prev = ok or first_abort([a for c_ in conds for a in M.lit_atoms(c_)])
             ctx.check(has_param, 'R05.4', 'abort-bound/own-node#%d' % n, asb, asb.loc(*pt), 'the stored bound covers the aborting node', 'best_ub := %s ignores the aborting node\'s bound' % M.show(v))
             ctx.check(has_inflight, 'R05.4', 'abort-bound/in-flight#%d' % n, asb, asb.loc(*pt), 'the stored bound covers the nodes other workers are processing (max over upper_bounds)',
                       'ParallelSolver::abort_search stores a bound that ignores the nodes still in flight on other workers (upper_bounds is not read): lb can end above ub')
@@ -1030,7 +1046,7 @@ def r_open_by_layer(ctx, rule='R09.8'):
         good = bool(ps) and bool(ws)
         if good:
             pushed = inline_helpers(F, ib.origin.operand(ps[0][1]['args'][1], ib.term_point(ps[0][0])))
-            dp = M.simplify_field(pushed, 'depth', None)
+            dp = M.simplify_field(pushed, 'depth', 'common::SubProblem')
             (wp, d, v) = ws[0]
             good = M.is_const(dp, 0) and M.is_const(d[2], 0) and v == M.mk_add(d, ('const', 1, None, 'usize'))
         ctx.check(good, rule, tag + '/root-accounting', ib, ib.loc(ps[0][0]) if ps else ib.loc(0), 'the root (depth 0) is pushed and open_by_layer[0] += 1', 'the root push is not accounted for in open_by_layer[0]')
@@ -1040,8 +1056,8 @@ def r_open_by_layer(ctx, rule='R09.8'):
         def popped_depth(t):
             return is_subproblem_field(t, 'depth') and any(M.contains(x, lambda y: M.is_call(y, 'Fringe::pop')) for x in var_def_terms(gw, t[1]))
         decs = [pt for (pt, d, v, s) in writes(gw) if obl(d) and popped_depth(d[2]) and v == ('sub', d, ('const', 1, None, 'usize'))]
-        zero = [gw.term_point(bb) for (bb, t) in gw.calls_to('for_each', 'fill')
-                if M.contains(gw.origin.operand(t['args'][0], gw.term_point(bb)), lambda x: solver_field(x, 'open_by_layer'))]
+        zero = zeroes_all(gw, lambda x: solver_field(x, 'open_by_layer'))
+        zero += [gw.term_point(bb) for (bb, t) in gw.calls_to('iter_mut') if M.contains(gw.origin.operand(t['args'][0], gw.term_point(bb)), lambda x: solver_field(x, 'open_by_layer'))]
         good = bool(pops) and bool(decs)
         for p in pops:
             r = gw.reach(gw.after(p), avoid=decs + zero)
